@@ -19,13 +19,13 @@ import (
 type jst uint8
 
 const (
-	jValue jst = iota // expecting a value
-	jValueOrClose      // after '[' : value or ']'
-	jKeyOrClose        // after '{' : '"' or '}'
-	jKey               // after ',' in object: '"'
-	jColon             // after key
-	jAfterValue        // after a complete value inside a container: ',' or close
-	jStr               // inside string
+	jValue        jst = iota // expecting a value
+	jValueOrClose            // after '[' : value or ']'
+	jKeyOrClose              // after '{' : '"' or '}'
+	jKey                     // after ',' in object: '"'
+	jColon                   // after key
+	jAfterValue              // after a complete value inside a container: ',' or close
+	jStr                     // inside string
 	jStrEsc
 	jStrU1
 	jStrU2
@@ -316,7 +316,7 @@ func JSONStatus(b []byte) (complete, dead bool) {
 
 // JVal is an order-preserving JSON tree.
 type JVal struct {
-	Kind  byte // 'o' 'a' 's' 'n' 't' 'f' 'z'(null)
+	Kind  byte   // 'o' 'a' 's' 'n' 't' 'f' 'z'(null)
 	Str   string // decoded string (Kind 's') or raw number text (Kind 'n')
 	Keys  []string
 	Items []JVal // object values or array items
